@@ -102,7 +102,12 @@ def step (st : St) (line : String) : St × String :=
     | some parts =>
       let rs := parts.map (read st.heap)
       if rs.all Option.isSome then
-        (st, "s:" ++ hexOfBytes (intercalate [46] (rs.filterMap id)))
+        let ps := rs.filterMap id
+        -- pretty_print: parts joined by '.', to_filename: by '/' + ".sam", encoded: '-' -> '_' joined by '$'
+        let enc := ps.map (fun b => b.map (fun c => if c == 45 then 95 else c))
+        let isStd := match ps with | p :: _ => p == [115, 116, 100] | [] => false
+        (st, "s:" ++ hexOfBytes (intercalate [46] ps) ++ " f:" ++ hexOfBytes (intercalate [47] ps ++ [46, 115, 97, 109])
+              ++ " e:" ++ hexOfBytes (intercalate [36] enc) ++ " std:" ++ (if isStd then "1" else "0"))
       else (st, "panic")
   | ["stat"] =>
     let (t, u, d) := stat st.heap
